@@ -39,6 +39,12 @@ def main():
         if o.startswith("--checks="):
             checks = o.split("=", 1)[1].split(",")
     skip_suite = "--skip-suite" in opts
+    if os.path.exists(os.path.join(VERIF, "seeded", name, "meta.json")) and "--force" not in opts:
+        print("already confirmed: " + name)
+        return 0
+    if os.path.exists("/tmp/sv-" + name):
+        print("in progress elsewhere: " + name)
+        return 0
     wt = "/tmp/sv-" + name
     if os.path.exists(wt):
         run(["git", "-C", "/repo", "worktree", "remove", "--force", wt])
